@@ -75,6 +75,20 @@ var specs = map[string]propSpec{
 		},
 		Assumptions: []string{"all legitimate loops of the engine go through the navigator, so an operation budget of 2*10^7 (confirmed at 4*10^7) on documents of <= ~15 nodes decides non-termination deterministically", "a panic whose value is an error but not a runtime.Error is taken to be raised deliberately by the package", "the harness navigators honour the NodeNavigator contract"},
 	},
+	"C16": {
+		Units: []unitSpec{
+			{Name: "rapid-regex", Test: "TestC16Regex", Rapid: true, QuickChecks: 60000, ThoroughChecks: 800000, QuickShards: 2, ThoroughShards: 8},
+			{Name: "rapid-cache-histories", Test: "TestC16Cache", Rapid: true, QuickChecks: 40000, ThoroughChecks: 500000, QuickShards: 2, ThoroughShards: 4},
+			{Name: "rapid-cache-concurrent", Test: "TestC16Concurrent", Rapid: true, Race: true, QuickChecks: 400, ThoroughChecks: 8000, QuickShards: 2, ThoroughShards: 4},
+		},
+		Assumptions: []string{"Go's regexp package is the trusted reference for matches()/replace()", "the cache's entry count, capacity and reset counter are observed through verif-tagged accessors that take the cache's read lock", "concurrent schedules are sampled under the race detector, not enumerated", "which entries survive a reset is not asserted (the property only bounds the size)"},
+	},
+	"C17": {
+		Units: []unitSpec{
+			{Name: "rapid-damaged-expressions", Test: "TestC17Rapid", Rapid: true, QuickChecks: 15000, ThoroughChecks: 200000, QuickShards: 4, ThoroughShards: 16},
+		},
+		Assumptions: []string{"only damages that are invalid by construction are generated (a lone leading '/' is never cut after; optional arguments stay optional; literals hold no quote characters)", "trailing garbage beyond the listed damage classes is not asserted"},
+	},
 	"C11": {
 		Units: []unitSpec{
 			{Name: "rapid-union", Test: "TestC11Rapid", Rapid: true, QuickChecks: 60000, ThoroughChecks: 700000, QuickShards: 4, ThoroughShards: 16},
